@@ -157,6 +157,10 @@ func (e *Engine) libModel(st *State, fn *ssa.Function, full string, args []Value
 		st.G, st.Heap = m.G, m.Heap
 		return nil, true
 	case "(*sync.WaitGroup).Add", "(*sync.WaitGroup).Done", "(*sync.WaitGroup).Wait":
+		if !e.inAtomicAcc {
+			e.inAtomicAcc = true
+			defer func() { e.inAtomicAcc = false }()
+		}
 		recvT := ptrElem(fn.Signature.Recv().Type())
 		sp, sT := e.subPtr(st, args[0].(PtrV), recvT, "sema", site)
 		cur := e.Load(st, sp, sT, site).(IntV).T
@@ -263,6 +267,10 @@ func (e *Engine) atomicRMW(st *State, kind string, p PtrV, et types.Type, a, b V
 		e.inAtomicOp = true
 		defer func() { e.inAtomicOp = false }()
 	}
+	if !e.inAtomicAcc {
+		e.inAtomicAcc = true
+		defer func() { e.inAtomicAcc = false }()
+	}
 	switch kind {
 	case "load":
 		return e.Load(st, p, et, site)
@@ -298,6 +306,10 @@ func (e *Engine) atomicRMW(st *State, kind string, p PtrV, et types.Type, a, b V
 // mutexOp: sequential model on the `state` (Mutex) / writerSem,readerSem (RWMutex) fields.
 func (e *Engine) mutexOp(st *State, p PtrV, fn *ssa.Function, op string, site string) Value {
 	c := e.C
+	if !e.inAtomicAcc {
+		e.inAtomicAcc = true
+		defer func() { e.inAtomicAcc = false }()
+	}
 	recvT := ptrElem(fn.Signature.Recv().Type())
 	for _, al := range p.Alts {
 		if al.Obj != nil {
@@ -337,6 +349,11 @@ func (e *Engine) mutexOp(st *State, p PtrV, fn *ssa.Function, op string, site st
 			w = e.Load(st, wp, wT, site).(IntV).T
 		}
 		e.Store(st, wp, IntV{c.BV(1, 32)}, wT, site)
+		for _, al := range p.Alts {
+			if al.Obj != nil {
+				e.raceLock(al.Obj, 1)
+			}
+		}
 	case "trylock":
 		free := c.Eq(w, zero)
 		e.Store(st, wp, IntV{c.Ite(free, c.BV(1, 32), w)}, wT, site)
@@ -344,16 +361,31 @@ func (e *Engine) mutexOp(st *State, p PtrV, fn *ssa.Function, op string, site st
 	case "unlock":
 		e.fail(st, c.Eq(w, zero), "nopanic:unlock-of-unlocked-mutex", site)
 		e.Store(st, wp, IntV{zero}, wT, site)
+		for _, al := range p.Alts {
+			if al.Obj != nil {
+				e.raceLock(al.Obj, -1)
+			}
+		}
 	case "rlock":
 		for e.blockUntil(st, c.Eq(w, zero), "rwmutex", site) {
 			w = e.Load(st, wp, wT, site).(IntV).T
 		}
 		r := e.Load(st, rp, rT, site).(IntV).T
 		e.Store(st, rp, IntV{c.Add(r, c.BV(1, 32))}, rT, site)
+		for _, al := range p.Alts {
+			if al.Obj != nil {
+				e.raceLock(al.Obj, 1)
+			}
+		}
 	case "runlock":
 		r := e.Load(st, rp, rT, site).(IntV).T
 		e.fail(st, c.Eq(r, zero), "nopanic:runlock-of-unlocked-rwmutex", site)
 		e.Store(st, rp, IntV{c.Sub(r, c.BV(1, 32))}, rT, site)
+		for _, al := range p.Alts {
+			if al.Obj != nil {
+				e.raceLock(al.Obj, -1)
+			}
+		}
 	}
 	return nil
 }
